@@ -125,7 +125,7 @@ fn int(r: &mut Rng) -> u64 {
 static LONG_OK: std::sync::atomic::AtomicBool = std::sync::atomic::AtomicBool::new(false);
 fn text(r: &mut Rng) -> String {
     let pieces = ["a", "b", "key", "Z", "0", " ", "\u{e9}", "\u{20ac}", "\u{1f600}", "\u{7ff}", "\u{800}", "\u{ffff}", "\u{10000}", "\u{10ffff}", "\u{d7ff}", "\u{e000}", "\u{0}"];
-    let sel = r.below(40);
+    let sel = r.below(100);
     match if sel == 0 && !LONG_OK.load(SeqCst) { 5 } else { sel } {
         0 => {
             // long text with a multi-byte code point around a 4096-byte chunk boundary
@@ -141,7 +141,7 @@ fn text(r: &mut Rng) -> String {
     }
 }
 fn bytes(r: &mut Rng) -> Vec<u8> {
-    let sel = r.below(30);
+    let sel = r.below(80);
     let n = match if sel == 0 && !LONG_OK.load(SeqCst) { 5 } else { sel } { 0 => 4096 + r.below(3) as usize, 1 => *r.pick(&[23usize, 24, 255, 256]), _ => r.below(10) as usize };
     r.bytes(n)
 }
